@@ -99,12 +99,14 @@ static std::string ee(Toks& t) {
                 if (r.second.size() != lin + circ) throw std::runtime_error("estimate size");
                 o.m(r.second);
                 // base estimate from a second, fresh instance with the un-windowed method
-                std::unique_ptr<EstimatesExtraction> b = make(lin, circ);
                 long stat = method / 4; // 0 mean, 1 mode, 2 map
-                b->setMethod(methodOf(4 * stat));
-                std::pair<bool, VectorXd> rb = (stat == 2) ? b->extract(ps, ws, pw, lik, tp) : b->extract(ps, ws);
-                if (!rb.first) throw std::runtime_error("base unavailable");
-                for (long i = 0; i < rb.second.size(); ++i) o.s("b:" + vh::hx(rb.second(i)));
+                if (stat != 2 || five) {
+                    std::unique_ptr<EstimatesExtraction> b = make(lin, circ);
+                    b->setMethod(methodOf(4 * stat));
+                    std::pair<bool, VectorXd> rb = (stat == 2) ? b->extract(ps, ws, pw, lik, tp) : b->extract(ps, ws);
+                    if (rb.first)
+                        for (long i = 0; i < rb.second.size(); ++i) o.s("b:" + vh::hx(rb.second(i)));
+                }
             }
         }
         else throw vh::BadArgs("op:" + op);
